@@ -15,6 +15,7 @@ pub mod c14;
 pub mod c15;
 pub mod c15_rates;
 pub mod c16;
+pub mod c18;
 pub mod fmtgrid;
 pub mod c17;
 
@@ -36,6 +37,7 @@ pub fn collect(prop: &str, blocks: &mut Vec<Block>, setup: &mut Report) {
         "C15" => c15::collect(blocks, setup),
         "C16" => c16::collect(blocks, setup),
         "C17" => c17::collect(blocks, setup),
+        "C18" => c18::collect(blocks, setup),
         "list" => {}
         _ => setup.machinery.push(format!("unknown property {prop}")),
     }
